@@ -7,6 +7,7 @@ package c01
 
 import (
 	"context"
+	"errors"
 	"fmt"
 	"os"
 	"strings"
@@ -62,6 +63,9 @@ type scenario struct {
 	// Stall > 0 adds a timer that far in the future: choosing TICK while contenders are enabled then stalls all of them
 	// for that long in one deviation (a process descheduled / a slow backend for more than two heart-beat periods)
 	Stall time.Duration
+	// GlitchAt > 0: the GlitchAt-th backend operation of contender 0 (its heart beat included) fails once with a transient
+	// error and leaves the backend untouched
+	GlitchAt int
 }
 
 type phase int
@@ -270,6 +274,19 @@ func body(sc scenario) func(x *gosim.Exec) {
 			x.Go("stall", n, func() { time.Sleep(sc.Stall) })
 		}
 		hook := &gosim.FSHook{X: x, AfterOp: w.afterOp}
+		if sc.GlitchAt > 0 {
+			seen := 0
+			hook.BeforeOp = func(op *vfsx.Op) *vfsx.Inject {
+				if op.Client != 0 {
+					return nil
+				}
+				if seen++; seen == sc.GlitchAt {
+					x.Note("transient error injected into %s", op)
+					return &vfsx.Inject{Err: errors.New("input/output error (transient)")}
+				}
+				return nil
+			}
+		}
 		shared := vfsx.NewShared(hook)
 		for i, c := range sc.Contenders {
 			i, c := i, c
@@ -402,6 +419,15 @@ func scenarios() []scenario {
 		add("dead/2xTry-override stall110", "posixmem", "dead", 2, T(true), T(true))
 		add("free/Try+Lock-override hold147", "posixmem", "free", 2, T(false), L(true))
 		add("free/Lock+Lock-override stall110", "posixmem", "free", 2, L(false), L(true))
+	}
+	// one transient backend error at every operation of contender 0's acquire / first beat / release
+	for k := 1; k <= 16; k++ {
+		add(fmt.Sprintf("free/Try+Lock glitch@%02d P1", k), "posixmem", "free", 1, T(false), L(false))
+		out[len(out)-1].GlitchAt = k
+		if k <= 10 {
+			add(fmt.Sprintf("dead/Try-override+Lock-override glitch@%02d P1", k), "posixmem", "dead", 1, T(true), L(true))
+			out[len(out)-1].GlitchAt = k
+		}
 	}
 	if f := os.Getenv("VERIF_SCENARIO"); f != "" {
 		var sel []scenario
